@@ -140,6 +140,59 @@ pub fn replay(args: &[String]) {
             }
         }
         }
+        // the same history in other units (2^-14 and 2^12: exact rescalings): means scale, variances scale with the square,
+        // R-hat does not change -- "any location / scale"
+        for alpha in [6.103515625e-5f64, 4096.0] {
+            let scaled = catch(|| {
+                let mut trackers: Vec<ChainTracker> = (0..nc).map(|_| ChainTracker::new(np, &vec![0.0f32; np])).collect();
+                let mut multi = MultiChainTracker::new(nc, np);
+                for round in &hist {
+                    for (ci, st) in round.iter().enumerate() {
+                        if ci % 2 == 1 {
+                            let x: Vec<f64> = st.iter().map(|v| *v as f64 * alpha).collect();
+                            trackers[ci].step(&x).unwrap();
+                        } else {
+                            let x: Vec<f32> = st.iter().map(|v| (*v as f64 * alpha) as f32).collect();
+                            trackers[ci].step(&x).unwrap();
+                        }
+                    }
+                    let flat: Vec<f32> = round.iter().flatten().map(|v| (*v as f64 * alpha) as f32).collect();
+                    multi.step(&flat).unwrap();
+                }
+                let stats: Vec<ChainStats> = trackers.iter().map(|t| t.stats()).collect();
+                let refs: Vec<&ChainStats> = stats.iter().collect();
+                (stats.clone(), collect_rhat(&refs), multi.rhat().unwrap())
+            });
+            evals += 1;
+            match scaled {
+                Err(e) => why.push(format!("scaled by {alpha}: panic {e}")),
+                Ok((stats, cr, mr)) => {
+                    for ci in 0..nc {
+                        for k in 0..np {
+                            let mean = alpha * s[ci][k] as f64 / nf;
+                            let var = alpha * alpha * (nf * q[ci][k] as f64 - (s[ci][k] * s[ci][k]) as f64) / (nf * (nf - 1.0));
+                            if !((stats[ci].mean[k] as f64 - mean).abs() <= 1e-5 * alpha) {
+                                why.push(format!("scaled by {alpha}: chain {ci} param {k}: mean {} expected {mean}", stats[ci].mean[k]));
+                            }
+                            if !((stats[ci].sm2[k] as f64 - var).abs() <= 1e-4 * alpha * alpha) {
+                                why.push(format!("scaled by {alpha}: chain {ci} param {k}: variance {} expected {var}", stats[ci].sm2[k]));
+                            }
+                        }
+                    }
+                    for k in 0..np {
+                        if c["wn"][k].as_i64().unwrap() > 0 {
+                            let e = c["rn"][k].as_i64().unwrap() as f64 / c["rd"][k].as_i64().unwrap() as f64;
+                            for (name, v) in [("collect_rhat", cr[k]), ("MultiChainTracker::rhat", mr[k])] {
+                                let r2 = (v as f64).powi(2);
+                                if !((r2 - e).abs() <= 1e-4 * e.max(1.0)) {
+                                    why.push(format!("scaled by {alpha}: param {k}: {name} = {v} (squared {r2}), expected squared {e}"));
+                                }
+                            }
+                        }
+                    }
+                }
+            }
+        }
         why.truncate(6);
         if !why.is_empty() && bad.len() < 20 {
             bad.push(json!({"hist": c["hist"], "why": why}));
